@@ -89,6 +89,64 @@ def uuid_cli(ctx, sc_code, rs, name):
     return vio, True
 
 
+def main_history(ctx, code, rs, name):
+    """The whole save / restore path of the real program (pcfg_guesser.main, harness/main_driver.py): a session quit while its
+    k-th pre-terminal was popped, then --load.  Nothing the uninterrupted run emits may be lost, only pre-terminals at the saved
+    probability may repeat, and flags typed together with --load do not change what the saved session resumes as."""
+    from collections import Counter
+    vio = []
+    rd = os.path.join(code, "Rules", name)
+    rulesets.write_ruleset(rs, rd)
+    U = common.run_main_driver(code, ["-r", name, "-s", "mu_" + name])
+    if U.get("error") or len(U["pops"]) < 3:
+        return vio, 0
+    k = ctx.rng.randint(1, max(1, min(len(U["pops"]) - 1, 12)))
+    sess = "mh_" + name
+    s1 = common.run_main_driver(code, ["-r", name, "-s", sess], quit_after_pops=k)
+    rep = {"ruleset": rs, "cli": "main-history", "k": k}
+    snap = {}
+    for ext in (".sav", ".omn"):
+        fn = os.path.join(code, sess + ext)
+        if os.path.exists(fn):
+            snap[fn] = open(fn, "rb").read()
+    if s1.get("error") or not snap or len(s1["pops"]) != k:
+        return vio, 0
+
+    def restore():
+        for fn, data in snap.items():
+            with open(fn, "wb") as f:
+                f.write(data)
+    ref = common.run_main_driver(code, ["-r", name, "-s", sess, "--load"])
+    if ref.get("error"):
+        return [{"sig": "C08:resume-raised", "what": "--load failed: %s" % ref["error"], "replay": rep}], 1
+    key = lambda p: (tuple(tuple(x) for x in p[0]), p[1])
+    saved = s1["pops"][-1][1]
+    done = Counter(key(p) for p in s1["pops"][:-1])
+    res = Counter(key(p) for p in ref["pops"])
+    full = Counter(key(p) for p in U["pops"])
+    lost = full - (done + res)
+    if lost:
+        vio.append({"sig": "C08:lost", "what": "session quit at pre-terminal %d and resumed with --load: %d pre-terminal(s) of the uninterrupted run "
+                    "are never emitted, e.g. %r" % (k, sum(lost.values()), list(lost)[:2]), "replay": rep})
+    rep_ = (done + res) - full
+    bad = [x for x in rep_ if x[1] != saved]
+    if bad:
+        vio.append({"sig": "C08:repeat-below-saved", "what": "repeated pre-terminals whose probability is not the saved one (%r): %r" % (saved, bad[:2]), "replay": rep})
+    if any(p[1] > saved for p in ref["pops"]):
+        vio.append({"sig": "C08:too-probable", "what": "the resumed run emits something more probable than the saved position %r" % saved, "replay": rep})
+    runs = 3
+    for extra in (["--skip_brute"], ["--all_lower"]):
+        restore()
+        got = common.run_main_driver(code, ["-r", name, "-s", sess, "--load"] + extra)
+        runs += 1
+        if got.get("error") or [key(p) for p in got["pops"]] != [key(p) for p in ref["pops"]] or got["out"] != ref["out"]:
+            vio.append({"sig": "C08:lost:flags-on-load", "what": "the saved session resumed with `--load %s` does not emit what it emits with plain --load: "
+                        "%d vs %d pre-terminals, %d vs %d guesses%s" % (" ".join(extra), len(got["pops"]), len(ref["pops"]), len(got["out"]), len(ref["out"]),
+                                                                    "; error %s" % got["error"] if got.get("error") else ""), "replay": dict(rep, extra=extra)})
+            break
+    return vio, runs
+
+
 def run(ctx):
     n = ctx.scale(60, 1000)
     cap = ctx.scale(120, 400)
@@ -171,6 +229,12 @@ def run(ctx):
         v, ran = uuid_cli(ctx, code, rs, "U%d" % i)
         vio += v
         dist["uuid_cli_runs"] += ran
+        rs2 = rulesets.gen_ruleset(ctx.rng, with_markov=True, max_bases=3, max_len=3)
+        rs2["omen_prob"] = [("0", 0.3), ("1", 0.2)]
+        rs2["name"] = "H%d" % i
+        v, ran = main_history(ctx, code, rs2, "H%d" % i)
+        vio += v
+        dist["main_history_runs"] = dist.get("main_history_runs", 0) + ran
     # correspondence
     per = 60
     shards = []
@@ -203,6 +267,10 @@ def run(ctx):
 
 def replay(ctx, data):
     inp = data.get("input") or {}
+    if inp.get("cli") == "main-history":
+        code = common.copy_code_tree(common.scratch())
+        v, _ = main_history(ctx, code, inp["ruleset"], inp["ruleset"].get("name", "H0"))
+        return v
     if "ruleset" not in inp or inp.get("cli"):
         return []
     sc = common.scratch()
